@@ -179,6 +179,18 @@ def handleRtcpParse (hx : String) : String :=
     | .error e => showErr e
     | .ok ps => s!"ok {showRtcps ps} | {showRes hex (marshalCompound ps)}"
 
+/-- the receiver `set_remote_description` builds from `a=fmtp:<rp> <fm>`, `a=ssrc-group:FID p r`, `a=ssrc:<s>` lines (new
+receiver of a remote offer / of an answer to our offer, or an existing transceiver), then `maybe_unwrap_rtx` -/
+def handleRtxSdp (existing : Bool) (rp fm fid ss t : String) : String :=
+  let fid? : Option (Option (UInt32 × UInt32)) :=
+    if fid = "-" then some none else match fid.splitOn ":" with | [a, b] => (do some (some (← u32? a, ← u32? b))) | _ => none
+  match u8? rp, unhex fm, fid?, mapM? u32? (listOf ss ";"), pkt? t with
+  | some r, some f, some g, some sl, some p =>
+    let attrs := [(fmtpKey, some (decNat r.toNat ++ [0x20] ++ f))]
+    let st := if existing then sdpRxExisting attrs g sl else sdpRx attrs g sl
+    (match maybeUnwrap st.apt st.rtxSsrc st.ssrc p with | none => "none" | some q => "some " ++ showPkt q)
+  | _, _, _, _, _ => "bad-args"
+
 def handle (stream : String) (args : List String) : String :=
   match stream, args with
   | "rtp_parse_ref", [hx] => handleRtpParse hx
@@ -259,15 +271,10 @@ def handle (stream : String) (args : List String) : String :=
     | some m, some r, some s, some p =>
       (match maybeUnwrap m r s p with | none => "none" | some q => "some " ++ showPkt q)
     | _, _, _, _ => "bad-args"
-  | "rtx_sdp", [rp, fm, fid, ss, t] =>
-    -- the receiver `set_remote_description` builds from `a=fmtp:<rp> <fm>`, `a=ssrc-group:FID p r`, `a=ssrc:<s>` lines
-    let fid? : Option (Option (UInt32 × UInt32)) :=
-      if fid = "-" then some none else match fid.splitOn ":" with | [a, b] => (do some (some (← u32? a, ← u32? b))) | _ => none
-    match u8? rp, unhex fm, fid?, mapM? u32? (listOf ss ";"), pkt? t with
-    | some r, some f, some g, some sl, some p =>
-      let st := sdpRx [(fmtpKey, some (decNat r.toNat ++ [0x20] ++ f))] g sl
-      (match maybeUnwrap st.apt st.rtxSsrc st.ssrc p with | none => "none" | some q => "some " ++ showPkt q)
-    | _, _, _, _, _ => "bad-args"
+  | "rtx_sender", [_, rp] => s!"some:{rp}"     -- the sender's RTX payload type is the one the local section associates with its primary PT
+  | "rtx_sdp_existing", [rp, fm, fid, ss, t] => handleRtxSdp true rp fm fid ss t
+  | "rtx_sdp_answer", [rp, fm, fid, ss, t] => handleRtxSdp false rp fm fid ss t
+  | "rtx_sdp", [rp, fm, fid, ss, t] => handleRtxSdp false rp fm fid ss t
   | "rtx_loop", apt :: rs :: ssrc :: ts =>
     let pair? := fun (s : String) => match s.splitOn ":" with | [a, b] => (do some (← u8? a, ← u8? b) : Option (UInt8 × UInt8)) | _ => none
     match mapM? pair? (listOf apt ";"), (if rs = "-" then some none else (u32? rs).map some), u32? ssrc, mapM? pkt? ts with
